@@ -573,7 +573,20 @@ def _owner(addr):
     return None
 
 
+class _EndPath(BaseException):
+    """the path ends here (a side computation took a branch other than its first; what follows does not depend on it)."""
+
+
 def restart_roundtrip(ctx, st, world, inflight, k):
+    """the restart is simulated on copies (st2, st3) and does not influence the history that follows: the continuation is
+    explored behind the first branch of every fork made inside, the other branches end after the restart leg."""
+    start = getattr(ctx, "pos", 0)
+    _restart_roundtrip(ctx, st, world, inflight, k)
+    if ctx.side_end(start):
+        raise _EndPath()
+
+
+def _restart_roundtrip(ctx, st, world, inflight, k):
     """C05/C06: the restart file written at this moment loads and reproduces the scheduler state; the in-flight jobs
     recorded at the stop are re-issued exactly."""
     cfg = copy.deepcopy(world.tomls[-1])
@@ -755,7 +768,9 @@ def bounds(tier, prop):
     if tier == "quick":
         return {"ensembles k": "2..4 (ind), 2..3 (bmc depth 3)", "workers": "1..k-1", "moves": "all-sh, and wf in the plus ensembles",
                 "outside": "k >= 5 (thorough), hole patterns, the real process pool"}
-    return {"ensembles k": "2..5 (ind), 2..4 (bmc depth 4)", "workers": "1..k-1", "moves": "all-sh, wf variants",
+    return {"ensembles k": "2..5 (ind; k = 4 wire-fencing job sets every second one, k = 5 one in 16 (all-sh) / 48 (wf) by stable hash), "
+                           "bmc (k, workers, depth): (2,1,4) (3,1,3) all-sh, (3,1,2) wf, (3,2,2) (4,2,1) (4,3,1) both",
+            "workers": "1..k-1", "moves": "all-sh, wf variants",
             "outside": "k >= 6, hole patterns, the real process pool"}
 
 
@@ -829,7 +844,10 @@ def _instances(tier, prop):
                     thin = k == 4 and quick and h % 3 != 0
                     if thin and wf:
                         continue
-                    if k == 5 and (h % (12 if wf else 4)):
+                    # thorough: k = 4 complete for all-'sh', every second job set with wire fencing; k = 5 thinned hard
+                    if not quick and k == 4 and wf and h % 2:
+                        continue
+                    if k == 5 and (h % (48 if wf else 16)):
                         continue
                     # on the quick tier two thirds of the k = 4 all-'sh' pre-states run without the (expensive) restart leg
                     out.append({"kind": "ind", "k": k, "moves": moves, "arr": list(arr), "jobs": [list(j) for j in jobs],
@@ -857,15 +875,21 @@ def _instances(tier, prop):
                         continue
                     extra.append(dict(s, engines=lay))
         out += extra
-    bm = [(2, 1, 3), (3, 1, 2), (3, 2, 2)] if quick else [(2, 1, 5), (3, 1, 4), (3, 2, 3), (4, 1, 3), (4, 2, 2), (4, 3, 2)]
-    for k, w, D in bm:
-        for moves in ([["sh"] * k] + ([["sh", "sh"] + ["wf"] * (k - 2)] if k >= 3 else [])):
+    # (k, workers, depth, move sets): measured single-core cost grows about x8 (k = 2) to x18 (k = 3) per level of depth;
+    # the thorough tier takes what fits into about 25 minutes on 16 cores (wire fencing one level shallower)
+    bm = [(2, 1, 3, "both"), (3, 1, 2, "both"), (3, 2, 2, "both")] if quick else \
+         [(2, 1, 4, "both"), (3, 1, 3, "sh"), (3, 2, 2, "both"), (3, 1, 2, "wf"), (4, 2, 1, "both"), (4, 3, 1, "both")]
+    for k, w, D, which in bm:
+        msets = [["sh"] * k] if which != "wf" else []
+        if k >= 3 and which != "sh":
+            msets.append(["sh", "sh"] + ["wf"] * (k - 2))
+        for moves in msets:
             for arr in itertools.product(range(1, k), repeat=k - 1):
                 if any(arr[i] < i + 1 for i in range(k - 1)):
                     continue  # initial paths must be valid in their own ensemble
                 out.append({"kind": "bmc", "k": k, "workers": w, "moves": moves, "arr": list(arr), "depth": D,
                             "delete": "on" if (want_delete or (k + w) % 2) else "off", "restart": restart and prop != "C03", "prop": prop,
-                            "_cost": (3 * k) ** D * 50, "_splitbits": 4 if quick else 6})
+                            "_cost": (3 * k) ** D * 50, "_splitbits": 4 if (quick or D <= 1) else 6, "_splitdepth": 4 if (quick or D <= 1) else 5})
     return out
 
 
@@ -900,9 +924,12 @@ def run_instance(ctx, shape):
     PROP = shape.get("prop", "C05")
     XLEG = shape.get("xleg", 6)
     rngmodel.REG.ids.clear()
-    if shape["kind"] == "ind":
-        return _ind(ctx, shape)
-    return _bmc(ctx, shape)
+    try:
+        if shape["kind"] == "ind":
+            return _ind(ctx, shape)
+        return _bmc(ctx, shape)
+    except _EndPath:
+        return
 
 
 def _fill_fracs(ctx, st):
